@@ -19,7 +19,7 @@ Step == LET e == Log[i]
               IF e.ev = "V" THEN
                  FoldLeft(LAMBDA acc, k :
                             acc \o (IF ~Agrees(sats[k], e.got[k]) THEN <<Bad("verdict-" \o sats[k] \o "-got-" \o e.got[k], k)>> ELSE <<>>)
-                                \o (IF e.lazy[k] # "-" /\ ~Agrees(SatLazy(e.phis[k], e.tree, EmptyScope), e.lazy[k]) /\ ~Agrees(sats[k], e.lazy[k])
+                                \o (IF e.lazy[k] # "-" /\ ~AgreesLazy(SatL(e.phis[k], e.tree, EmptyScope), e.lazy[k]) /\ ~Agrees(sats[k], e.lazy[k])
                                     THEN <<Bad("lazy-verdict-" \o SatLazy(e.phis[k], e.tree, EmptyScope) \o "-got-" \o e.lazy[k], k)>> ELSE <<>>)
                                 \o (IF ~LazyEqualsEager(e.phis[k], e.tree, EmptyScope) THEN <<Bad("spec-lazy-differs-from-eager", k)>> ELSE <<>>),
                           <<>>, [k \in 1..Len(e.phis) |-> k])
